@@ -69,7 +69,15 @@ func swissquoteWrite(rows []stRow) []byte {
 				tax = r.Amt * 35 / 65
 			}
 			typ := []string{"Dividende", "Capital Gain", "Kapitalrückzahlung"}[k%3]
-			line(typ, stockSyms[k%len(stockSyms)], r.Text, "IE00B3RBWM25", "1.0", r.Amt+tax, tax, r.Amt, r.Cur)
+			// number of shares and amount per share: the gross amount is their product
+			shares := 1
+			for _, n := range []int{8, 5, 4, 3, 2} {
+				if (r.Amt+tax)%n == 0 && k%2 == 0 {
+					shares = n
+					break
+				}
+			}
+			line(typ, stockSyms[k%len(stockSyms)], r.Text, "IE00B3RBWM25", fmt.Sprintf("%d.0", shares), (r.Amt+tax)/shares, tax, r.Amt, r.Cur)
 		case "trade":
 			q := r.Extra[0].V // shares at scale 100 (whole shares)
 			n := abs(q) / 100
@@ -79,6 +87,8 @@ func swissquoteWrite(rows []stRow) []byte {
 			if q > 0 { // net = -(n*price + cost)
 				cost = (-r.Amt) % n
 				price = (-r.Amt - cost) / n
+			} else if r.Amt <= 0 { // worthless shares sold: no proceeds, only the fee
+				typ, cost, price = "Verkauf", -r.Amt, 0
 			} else { // net = n*price - cost
 				typ = "Verkauf"
 				cost = (n - r.Amt%n) % n
@@ -114,7 +124,12 @@ func ibWrite(rows []stRow, finals []stEff, endZ int) []byte {
 		w("Open Positions", "Header", "DataDiscriminator", "Asset Category", "Currency", "Symbol", "Quantity", "Mult", "Cost Price", "Cost Basis", "Close Price", "Value", "Unrealized P/L", "Unrealized P/L %", "Code")
 		for _, f := range finals {
 			if !isCurrency(f.C) && f.F4 != 0 {
-				w("Open Positions", "Data", "Summary", "Stocks", "USD", f.C, dec4(f.F4), "1", "100.00", "100.00", "100.00", "100.00", "100.00", "100.00", "")
+				qs := dec4(f.F4)
+				if f.F4%10000 == 0 { // whole shares are exported with thousands separators
+					qs = commas(f.F4 / 100)
+					qs = qs[:len(qs)-3]
+				}
+				w("Open Positions", "Data", "Summary", "Stocks", "USD", f.C, qs, "1", "100.00", "100.00", "100.00", "100.00", "100.00", "100.00", "")
 			}
 		}
 		w("Open Positions", "Total", "", "Stocks", "USD", "", "", "", "", "100.00", "", "100.00", "100.00", "", "")
